@@ -108,6 +108,10 @@ def run(case):
     # a hand-made LoaderGroup of two loaders with different pixel sizes: the common range in nm is a different
     # number of pixels for each of them (the finer one searches 1.5 M pixels)
     hand = kind == "group" and gen.rng_for(p["iseed"], "c01-hand").random() < 0.5
+    if hand:
+        M = min(M, 2.0)   # keeps 1.5 M within the usual range: a larger margin would squeeze the particle into a
+        #                   2-px ball that hardly changes under the searched rotations (thorough seed 0: NCC picked a
+        #                   neighbouring candidate for such a particle)
     Mx = 1.5 * M if hand else M
     blobs = gen.make_blobs(rng, shape, n=5, sigma=(1.3, 1.9), margin=Mx + 4.8)
     tmpl = gen.render_box(shape, blobs)
